@@ -61,6 +61,10 @@ class Reference:
             self.size = img.size
         self.file_bytes = open(path, "rb").read() if path else None
 
+    def at_frame(self, frame: int) -> "Reference":
+        """The same source at another frame (multi-render histories on one image object)."""
+        return Reference(pil=self.pil, path=self.path, frame=frame, alphakind=self.alphakind, bg=self.bg)
+
     def _open(self) -> Image.Image:
         if self.path:
             img = Image.open(self.path)
